@@ -192,6 +192,13 @@ func minimise(e *lib.Env, p *program, msg string) (key string, min *program, sub
 			cur = c
 		}
 	}
+	if cur.Wrap != "" {
+		c := cur
+		c.Wrap = ""
+		if fails(&c, msg) {
+			cur = c
+		}
+	}
 	modeAny := false
 	if !cur.Shebang {
 		hasHTML := false
@@ -269,6 +276,9 @@ func features(p *program) []string {
 	}
 	if p.Include {
 		add("included")
+	}
+	if p.Wrap != "" {
+		add("in-" + p.Wrap + "-body")
 	}
 	sort.Strings(ctx)
 	return ctx
